@@ -468,6 +468,35 @@ static int fill_codeword_binary(dses_t *s)
 	return remaining == 0;
 }
 
+/* equations of a 2D parity session whose control block holds no matrix (an encoder of a re-implementation that does
+ * not need one): read them off the public API -- a hidden encoder session builds every repair symbol from unit
+ * source symbols, the source symbols of equation i are the bits set in repair symbol k + i */
+static void derive_H_2d(dses_t *s, int sid, uint32_t k, uint32_t r)
+{
+	of_session_t *e = NULL; uint32_t n = k + r, hl = (k + 7) / 8; of_status_t st;
+	if (!k || !r || n < k || n > 65536) return;
+	LIB_ENTER(sid + 100); st = of_create_codec_instance(&e, OF_CODEC_2D_PARITY_MATRIX_STABLE, OF_ENCODER, 0); LIB_LEAVE();
+	if (st != OF_STATUS_OK || !e) return;
+	dses_t tmp = *s; tmp.ses = e;
+	void **tab = calloc(n, sizeof(void *)); int ok = 1;
+	for (uint32_t i = 0; i < n; i++) { tab[i] = calloc(hl, 1); if (i < k) ((unsigned char *)tab[i])[i >> 3] |= (unsigned char)(1u << (i & 7)); }
+	if (set_params_raw(&tmp, sid + 100, k, r, hl, 0, 0, 0) != OF_STATUS_OK) ok = 0;
+	for (uint32_t i = k; ok && i < n; i++) { LIB_ENTER(sid + 100); if (of_build_repair_symbol(e, tab, i) != OF_STATUS_OK) ok = 0; LIB_LEAVE(); }
+	LIB_ENTER(sid + 100); of_release_codec_instance(e); LIB_LEAVE();
+	if (ok) {
+		int **H = calloc(r, sizeof(int *)); int *Hn = calloc(r, sizeof(int));
+		for (uint32_t i = 0; i < r; i++) {
+			const unsigned char *b = tab[k + i]; int cnt = 0;
+			H[i] = calloc(k + 1, sizeof(int));
+			for (uint32_t j = 0; j < k; j++) if ((b[j >> 3] >> (j & 7)) & 1) H[i][cnt++] = (int)j;
+			H[i][cnt++] = (int)(k + i); Hn[i] = cnt;
+		}
+		s->H = H; s->Hn = Hn; s->nH = (int)r;
+	}
+	for (uint32_t i = 0; i < n; i++) free(tab[i]);
+	free(tab);
+}
+
 static void emit_H(dses_t *s)
 {
 	jb_printf(",\"H\":[");
@@ -515,7 +544,13 @@ static void cmd_params(int sid, uint32_t k, uint32_t r, uint32_t len, uint32_t m
 			}
 		}
 #endif
-		else if (s->codec == 5) capture_H(((of_2d_parity_cb_t *)s->ses)->pchk_matrix, k, r, &s->H, &s->Hn, &s->nH);
+		else if (s->codec == 5) {
+#ifndef OF_DRIVER_NO_INTERNALS
+			if (((of_2d_parity_cb_t *)s->ses)->pchk_matrix) capture_H(((of_2d_parity_cb_t *)s->ses)->pchk_matrix, k, r, &s->H, &s->Hn, &s->nH);
+			else
+#endif
+			derive_H_2d(s, sid, k, r);
+		}
 		/* application buffers */
 		s->raw = calloc(s->n, sizeof(void *)); s->cw = calloc(s->n, sizeof(void *)); s->orig = calloc(s->n, sizeof(void *)); s->have = calloc(s->n, sizeof(int));
 		s->dupbuf = calloc(s->n, sizeof(void *)); s->nsub = calloc(s->n, sizeof(int));
